@@ -154,4 +154,244 @@ theorem join_eq {p : PPath} (h : p.wf) {b : Str} (hb : b.head? ≠ some slash) :
   unfold PPath.join parsePath
   rw [rootOf_join h hb, posixJoin_split hne hb, filter_keep_split_str h]
 
+-- ------------------------------------------------------------------ accepted lists ---
+
+/-- a component that names exactly one directory entry below its parent -/
+def goodComp (c : Str) : Prop := c ≠ [] ∧ c ≠ dotS ∧ c ≠ dotdotS ∧ slash ∉ c
+
+instance (c : Str) : Decidable (goodComp c) := by unfold goodComp; exact inferInstance
+instance (c : Str) : Decidable (goodPart c) := by unfold goodPart; exact inferInstance
+
+theorem goodComp.goodPart {c : Str} (h : goodComp c) : goodPart c := ⟨h.1, h.2.1, h.2.2.2⟩
+
+theorem badComp_false {c : Str} : badComp c = false ↔ slash ∉ c ∧ c ≠ dotS ∧ c ≠ dotdotS := by
+  simp [badComp, and_assoc]
+
+/-- What `requestToLocalPath` checked when it answers `ok`. -/
+theorem rtl_ok {root : PPath} {comps : List Str} {p : PPath}
+    (h : requestToLocalPath root comps = .ok p) :
+    (∀ c ∈ comps, badComp c = false) ∧ [] ∉ comps.dropLast ∧ p = root.join (joinSlash comps) := by
+  unfold requestToLocalPath at h
+  split at h
+  · cases h
+  · rename_i h1
+    split at h
+    · cases h
+    · rename_i h2
+      refine ⟨?_, ?_, ?_⟩
+      · simpa using h1
+      · simpa using h2
+      · cases h; rfl
+
+theorem rtl_error_iff {root : PPath} {comps : List Str} :
+    (∃ e, requestToLocalPath root comps = .error e) ↔
+      ((∃ c ∈ comps, badComp c = true) ∨ [] ∈ comps.dropLast) := by
+  unfold requestToLocalPath
+  constructor
+  · rintro ⟨e, h⟩
+    split at h
+    · rename_i h1; left; simpa using h1
+    · split at h
+      · rename_i h2; right; simpa using h2
+      · cases h
+  · rintro (h | h)
+    · have : comps.any badComp = true := by simpa using h
+      exact ⟨.invalidPath, by simp [this]⟩
+    · have : comps.dropLast.contains [] = true := by simpa using h
+      by_cases h1 : comps.any badComp = true
+      · exact ⟨.invalidPath, by simp [h1]⟩
+      · exact ⟨.invalidPath, by simp [h1, h]⟩
+
+theorem joinSlash_head {comps : List Str} (h1 : ∀ c ∈ comps, slash ∉ c)
+    (h2 : [] ∉ comps.dropLast) : (joinSlash comps).head? ≠ some slash := by
+  match comps with
+  | [] => simp [joinSlash]
+  | [c] =>
+    have := h1 c (by simp)
+    cases c with
+    | nil => simp [joinSlash]
+    | cons x t => simp [joinSlash]; intro e; exact this (by simp [e])
+  | c :: d :: t =>
+    have hs := h1 c (by simp)
+    cases c with
+    | nil => exact absurd (by simp [List.dropLast]) h2
+    | cons x t' => simp [joinSlash]; intro e; exact hs (by simp [e])
+
+theorem split_join_filter {comps : List Str} (h : ∀ c ∈ comps, slash ∉ c ∧ c ≠ dotS) :
+    (splitSlash (joinSlash comps)).filter keep = comps.filter (· != []) := by
+  cases comps with
+  | nil => simp [joinSlash, splitSlash, keep]
+  | cons a t =>
+    rw [splitSlash_joinSlash (by simp) (fun c hc => (h c hc).1)]
+    apply List.filter_congr
+    intro c hc
+    simp [keep, (h c hc).2]
+
+/-- Closed form of an accepted request path: the anchor of the root, the root's parts, then the
+request's components (minus the trailing empty one), nothing collapsed and nothing replaced. -/
+theorem rtl_eq {root : PPath} (hr : root.wf) {comps : List Str} {p : PPath}
+    (h : requestToLocalPath root comps = .ok p) :
+    p = { root := root.root, parts := root.parts ++ comps.filter (· != []) } := by
+  obtain ⟨h1, h2, rfl⟩ := rtl_ok h
+  have hb : ∀ c ∈ comps, slash ∉ c ∧ c ≠ dotS := fun c hc =>
+    ⟨(badComp_false.mp (h1 c hc)).1, (badComp_false.mp (h1 c hc)).2.1⟩
+  rw [join_eq hr (joinSlash_head (fun c hc => (hb c hc).1) h2), split_join_filter hb]
+
+theorem rtl_rel_good {comps : List Str} (h1 : ∀ c ∈ comps, badComp c = false) :
+    ∀ c ∈ comps.filter (· != []), goodComp c := by
+  intro c hc
+  rw [List.mem_filter] at hc
+  obtain ⟨hm, hne⟩ := hc
+  obtain ⟨a, b, d⟩ := badComp_false.mp (h1 c hm)
+  exact ⟨by simpa using hne, b, d, a⟩
+
+-- ------------------------------------------------------------------ inside the root ---
+
+/-- `p` is lexically inside `root`: same anchor, the root's parts are a prefix, and what
+follows are proper components (no `..`, no `.`, no `/`, not empty). -/
+def Inside (root p : PPath) : Prop :=
+  p.root = root.root ∧ ∃ rel, p.parts = root.parts ++ rel ∧ ∀ c ∈ rel, goodComp c
+
+theorem Inside.child {root p : PPath} (h : Inside root p) {n : Str} (hn : goodComp n) :
+    Inside root (p.child n) := by
+  obtain ⟨h1, rel, h2, h3⟩ := h
+  refine ⟨h1, rel ++ [n], by simp [PPath.child, h2], ?_⟩
+  intro c hc
+  rcases List.mem_append.mp hc with hc | hc
+  · exact h3 c hc
+  · simp at hc; subst hc; exact hn
+
+/-- the parent of something strictly below the root is still inside -/
+theorem Inside.parent {root : PPath} {rel : List Str} (hne : rel ≠ [])
+    (hg : ∀ c ∈ rel, goodComp c) :
+    Inside root (PPath.parent { root := root.root, parts := root.parts ++ rel }) := by
+  refine ⟨rfl, rel.dropLast, by simp [PPath.parent, List.dropLast_append_of_ne_nil hne], ?_⟩
+  intro c hc
+  exact hg c (List.dropLast_subset _ hc)
+
+-- ------------------------------------------------------------------ operations -------
+
+/-- every path named by every operation is inside the root -/
+def AllInside (root : PPath) (ops : List FsOp) : Prop :=
+  ∀ op ∈ ops, ∀ q ∈ op.paths, Inside root q
+
+/-- the names the operating system hands back are single proper components: `os.listdir`
+omits `.`/`..` and no directory entry contains `/`; `tempfile` draws from `[a-z0-9_]` -/
+def World.wf (w : World) : Prop := goodComp w.tmpName ∧ ∀ c ∈ w.children, goodComp c.1
+
+@[simp] theorem allInside_nil (r : PPath) : AllInside r [] := by simp [AllInside]
+
+@[simp] theorem allInside_cons (r : PPath) (op : FsOp) (ops : List FsOp) :
+    AllInside r (op :: ops) ↔ (∀ q ∈ op.paths, Inside r q) ∧ AllInside r ops := by
+  simp [AllInside]
+
+@[simp] theorem allInside_append (r : PPath) (a b : List FsOp) :
+    AllInside r (a ++ b) ↔ AllInside r a ∧ AllInside r b := by
+  simp only [AllInside, List.mem_append]
+  constructor
+  · intro h; exact ⟨fun op ho => h op (Or.inl ho), fun op ho => h op (Or.inr ho)⟩
+  · rintro ⟨h1, h2⟩ op (ho | ho); exact h1 op ho; exact h2 op ho
+
+theorem renderGetAt_inside (cfg : Config) (req : Request) (w : World) {p : PPath}
+    (hp : Inside cfg.root p) (hw : w.wf) : AllInside cfg.root (renderGetAt cfg req w p).ops := by
+  have hch : AllInside cfg.root (w.children.map fun c => FsOp.stat (p.child c.1)) := by
+    intro op ho q hq
+    obtain ⟨c, hc, rfl⟩ := List.mem_map.mp ho
+    simp only [FsOp.paths, List.mem_singleton] at hq
+    subst hq
+    exact hp.child (hw.2 c hc)
+  unfold renderGetAt
+  cases w.stat <;> simp only [] <;> (repeat' split) <;>
+    simp [FsOp.paths, hp, hch]
+
+theorem renderDeleteAt_inside (root : PPath) (req : Request) (w : World) {p : PPath}
+    (hp : Inside root p) : AllInside root (renderDeleteAt req w p).ops := by
+  unfold renderDeleteAt
+  simp only []
+  (repeat' split) <;> simp [FsOp.paths, hp]
+
+theorem renderPutAt_inside (root : PPath) (req : Request) (w : World) {p : PPath}
+    (hp : Inside root p) (hpar : Inside root p.parent) (hw : w.wf) :
+    AllInside root (renderPutAt req w p).ops := by
+  have htmp := hpar.child hw.1
+  unfold renderPutAt
+  simp only []
+  (repeat' split) <;> simp [FsOp.paths, hp, hpar, htmp]
+
+-- ------------------------------------------------------------------ read-only --------
+
+def NoneModifying (ops : List FsOp) : Prop := ∀ op ∈ ops, op.modifying = false
+
+theorem renderGetAt_nonmodifying (cfg : Config) (req : Request) (w : World) (p : PPath) :
+    NoneModifying (renderGetAt cfg req w p).ops := by
+  unfold renderGetAt NoneModifying
+  cases w.stat <;> simp only [] <;> (repeat' split) <;> simp [FsOp.modifying]
+
+theorem renderGet_nonmodifying (cfg : Config) (req : Request) (w : World) :
+    NoneModifying (renderGet cfg req w).ops := by
+  unfold renderGet
+  split
+  · simp [NoneModifying]
+  · split
+    · simp [NoneModifying]
+    · exact renderGetAt_nonmodifying _ _ _ _
+
+theorem rtl_wellKnownCore (root : PPath) :
+    ∃ p, requestToLocalPath root wellKnownCore = .ok p := by
+  refine ⟨root.join (joinSlash wellKnownCore), ?_⟩
+  simp [requestToLocalPath, wellKnownCore, badComp, dotS, dotdotS, slash, List.dropLast]
+
+-- ------------------------------------------------------------------ block slicing ----
+
+theorem blockSize_pos (szx : Nat) : 0 < blockSize szx := Nat.pow_pos (by decide)
+
+theorem sliceBlock_more (content : Bytes) (k szx : Nat) :
+    (sliceBlock content (some (k, szx))).more
+      = decide ((content.drop (k * blockSize szx)).length > blockSize szx) := by
+  simp only [sliceBlock, Option.getD_some, Response.more]
+  split
+  · rename_i h
+    split at h
+    · cases h
+    · rename_i hc
+      simp only [Option.some.injEq, Prod.mk.injEq] at h
+      rw [← h.2.1]
+      simp [List.length_take]; omega
+  · rename_i h
+    split at h
+    · rename_i hc
+      have := hc.2
+      simp [List.length_take] at this ⊢; omega
+    · cases h
+
+theorem sliceBlock_payload (content : Bytes) (k szx : Nat) :
+    (sliceBlock content (some (k, szx))).payload
+      = (content.drop (k * blockSize szx)).take (blockSize szx) := by
+  simp [sliceBlock, List.take_take]
+
+/-- Fetching from block `k` on yields the rest of the content from offset `k·size`. -/
+theorem fetchLoop_slice (content : Bytes) (szx : Nat) :
+    ∀ fuel k, (content.drop (k * blockSize szx)).length < fuel * blockSize szx →
+      fetchLoop (fun k => sliceBlock content (some (k, szx))) fuel k
+        = some (content.drop (k * blockSize szx)) := by
+  intro fuel
+  induction fuel with
+  | zero => intro k h; simp at h
+  | succ fuel ih =>
+    intro k h
+    have hpos := blockSize_pos szx
+    simp only [fetchLoop, sliceBlock_more, sliceBlock_payload]
+    by_cases hm : (content.drop (k * blockSize szx)).length > blockSize szx
+    · have hnext : content.drop ((k + 1) * blockSize szx)
+          = (content.drop (k * blockSize szx)).drop (blockSize szx) := by
+        rw [List.drop_drop, Nat.succ_mul]
+      have hlen : (content.drop ((k + 1) * blockSize szx)).length < fuel * blockSize szx := by
+        rw [hnext, List.length_drop]
+        rw [Nat.succ_mul] at h
+        omega
+      simp only [hm, decide_true, ↓reduceIte, ih (k + 1) hlen, Option.map_some, hnext,
+        List.take_append_drop]
+    · simp only [hm, decide_false, Bool.false_eq_true, ↓reduceIte]
+      rw [List.take_of_length_le (by omega)]
+
 end Aiocoap.FileServer
